@@ -34,8 +34,26 @@ def maybe(rng, p):
     return rng.random() < p
 
 
+def role_alphabet(rng):
+    """the roles to draw from: for stretches of 8-60 draws a small alphabet (three roles plus their
+    '-of' relatives: :X with :X-of, :consist with :consist-of, :part-of) instead of the whole list, so
+    that repeated roles, role/inverse pairs and a custom model's own roles meet in one tree"""
+    st = getattr(rng, '_role_focus', None)
+    if st is None or st[1] <= 0:
+        if maybe(rng, 0.3):
+            base = rng.sample(ROLES_PLAIN, 3)
+            rel = [r for r in ROLES_PLAIN if any(r == b + '-of' or b == r + '-of' for b in base)]
+            alphabet = base + rel
+        else:
+            alphabet = ROLES_PLAIN
+        st = [alphabet, rng.randint(8, 60)]
+        rng._role_focus = st
+    st[1] -= 1
+    return st[0]
+
+
 def role(rng, invert=True):
-    r = rng.choice(ROLES_PLAIN)
+    r = rng.choice(role_alphabet(rng))
     if invert and maybe(rng, 0.05):
         # an over-inverted role that is a normalisation key only after its inversions collapse
         return rng.choice([':mod', ':domain', ':consist', ':consist-of', ':prep-out-of']) + '-of' * rng.choice([2, 3, 3, 4])
@@ -125,7 +143,7 @@ class TreeGen:
     def role_(self):
         rng = self.rng
         if self.wf_strict:
-            r = rng.choice([x for x in ROLES_PLAIN if not x.startswith(':instance')])
+            r = rng.choice([x for x in role_alphabet(rng) if not x.startswith(':instance')] or [':ARG0'])
             if maybe(rng, 0.3) and not r.endswith('-of'):
                 r += '-of'
             return r
@@ -416,6 +434,21 @@ CUSTOM_MODELS = [
 ]
 
 
+def focus_on_model(rng, spec):
+    """half of the time a custom model is in play, the next roles are drawn from ITS role table,
+    normalisations and reifications (with the usual '-of' suffixes added by role())"""
+    if isinstance(spec, dict) and maybe(rng, 0.5):
+        own = [r for _, r in spec.get('roles', [])]
+        own = [r + '1' if kind != 'lit' else r for (kind, _), r in zip(spec.get('roles', []), own)]
+        for row in spec.get('norm', []):
+            own += list(row)
+        own += [row[0] for row in spec.get('reifs', [])]
+        own = [r for r in own if isinstance(r, str) and r.startswith(':')]
+        if own:
+            rng._role_focus = [own, rng.randint(8, 40)]
+    return spec
+
+
 def gen_model(rng, custom=True):
     k = rng.random()
     if k < 0.3:
@@ -424,7 +457,7 @@ def gen_model(rng, custom=True):
         return 'amr'
     if k < 0.78:
         return 'noop'
-    return rng.choice(CUSTOM_MODELS)
+    return focus_on_model(rng, rng.choice(CUSTOM_MODELS))
 
 
 def model_roles(spec):
@@ -559,6 +592,7 @@ def corrupt_markers(rng, g):
 
 def gen_graph(rng, model_spec='default', mode=None):
     mode = mode or rng.choice(['decoded', 'decoded', 'hand', 'corrupt', 'corrupt', 'hand-disc', 'illformed'])
+    focus_on_model(rng, model_spec)
     g = None
     if mode in ('decoded', 'corrupt'):
         g = decode_graph(rng, model_spec)
